@@ -29,6 +29,12 @@ func main() {
 				fmt.Println(tier, name, "grammars", fam, "packages", pk)
 			}
 		}
+	case "replay":
+		if len(os.Args) < 3 {
+			fmt.Fprintln(os.Stderr, "usage: pegmc replay <replay-dir>")
+			os.Exit(2)
+		}
+		os.Exit(replay(os.Args[2]))
 	case "selftest":
 		os.Exit(selftest())
 	case "check":
